@@ -40,7 +40,17 @@ func c08Progress(p c08Params) Scenario {
 	var phase1c2 bool
 	var setup2 int
 	body := func() {
-		s = newSess(SrvOpt{Msize: 256, Dotu: p.Dotu, Maxpend: p.Maxpend})
+		withAuth := false
+		for _, k := range p.Kinds {
+			withAuth = withAuth || strings.HasPrefix(k, "auth")
+		}
+		s = newSess(SrvOpt{Msize: 256, Dotu: p.Dotu, Maxpend: p.Maxpend, Auth: withAuth})
+		if withAuth {
+			// one authentication fid; requests on it go to the implementation's AuthRead / AuthWrite
+			if r := s.c.Rpc(&wire.Msg{Type: wire.Tauth, Tag: s.tag(), Afid: 70, Uname: "glenda", NUname: 7, HasNUname: p.Dotu}); r == nil || r.Type != wire.Rauth {
+				vs.Fail("setup: Tauth answered by %v", r)
+			}
+		}
 		s.tags, s.msgs, s.gates = nil, nil, make([]*vs.Sem, len(p.Kinds))
 		for i, k := range p.Kinds {
 			tag := uint16(100 + i)
@@ -48,13 +58,24 @@ func c08Progress(p c08Params) Scenario {
 				tag = 0xFFFF
 			}
 			s.tags = append(s.tags, tag)
-			s.msgs = append(s.msgs, s.prepare(strings.TrimSuffix(k, "+destroy"), uint32(10+i), tag))
+			switch k {
+			case "authread":
+				s.msgs = append(s.msgs, &wire.Msg{Type: wire.Tread, Tag: tag, Fid: 70, Count: 8})
+			case "authwrite":
+				s.msgs = append(s.msgs, &wire.Msg{Type: wire.Twrite, Tag: tag, Fid: 70, Data: []byte("resp")})
+			default:
+				s.msgs = append(s.msgs, s.prepare(strings.TrimSuffix(k, "+destroy"), uint32(10+i), tag))
+			}
 		}
 		for _, i := range p.Parked {
 			s.gates[i] = vs.NewSem(0)
 			if strings.HasSuffix(p.Kinds[i], "+destroy") {
 				// the implementation answers at once and then blocks in FidDestroy
 				s.fs.Script[reqKey{0, s.tags[i], 0}] = &Action{DestroyGate: s.gates[i]}
+				continue
+			}
+			if p.Kinds[i] == "authread" {
+				s.fs.AuthReadGate = s.gates[i]
 				continue
 			}
 			s.fs.Script[reqKey{0, s.tags[i], 0}] = &Action{Gate: s.gates[i]}
@@ -468,6 +489,9 @@ func c08Scenarios(tier string) []Scenario {
 		out = append(out, c08Group(c08GroupParams{Group: 3, FirstGate: true, Others: 2, Maxpend: 2, P: 1}))
 		out = append(out, c08Group(c08GroupParams{Group: 3, FirstGate: false, Others: 0, Maxpend: 0, Dotu: true, Split: true, P: 1}))
 		out = append(out, c08AcrossVersion(false, 0, 2), c08AcrossVersion(true, 2, 2))
+		// an authentication exchange waiting inside AuthRead, more traffic on the same auth fid and elsewhere
+		out = append(out, c08Progress(c08Params{Kinds: []string{"authread", "authwrite", "stat"}, Parked: []int{0}, Release: []int{0}, Maxpend: 0, Dotu: true, P: 1}),
+			c08Progress(c08Params{Kinds: []string{"authread", "authwrite"}, Parked: []int{0}, Release: []int{0}, TwoConns: true, Maxpend: 2, P: 1}))
 		out = append(out, c08Progress(c08Params{Kinds: []string{"read", "stat"}, Parked: []int{0}, Release: []int{0}, NotagFirst: true, Maxpend: 0, P: 2}),
 			c08Progress(c08Params{Kinds: []string{"walk", "write", "stat"}, Parked: []int{0}, Release: []int{0}, NotagFirst: true, Maxpend: 2, Dotu: true, P: 1}))
 		return out
@@ -508,6 +532,7 @@ func c08Scenarios(tier string) []Scenario {
 	for _, mp := range []int{0, 1, 2} {
 		out = append(out, c08AcrossVersion(mp%2 == 0, mp, 3))
 		out = append(out, c08Progress(c08Params{Kinds: []string{"read", "stat", "write"}, Parked: []int{0}, Release: []int{0}, NotagFirst: true, Maxpend: mp, Dotu: mp == 1, P: 2}))
+		out = append(out, c08Progress(c08Params{Kinds: []string{"authread", "authwrite", "stat"}, Parked: []int{0}, Release: []int{0}, TwoConns: mp == 1, Maxpend: mp, Dotu: mp != 1, P: 2}))
 	}
 	out = append(out, c08Group(c08GroupParams{Group: 8, FirstGate: true, Others: 3, Maxpend: 0, P: 0}))
 	out = append(out, c08Group(c08GroupParams{Group: 5, FirstGate: false, Others: 2, Maxpend: 2, Split: true, P: 1}))
@@ -517,7 +542,7 @@ func c08Scenarios(tier string) []Scenario {
 func init() {
 	register(&Property{ID: "C08", Level: "model_checking",
 		Technique: "stateless model checking of the real server under a controlled scheduler (all schedules within a preemption bound); blocking decided at quiescent states, no clocks",
-		Rule:      "every schedule with at most P preemptions per scenario: (a) every non-empty proper subset of n requests parked in the implementation, every release order, one or two connections, Maxpend 0..2 (also with the blocked request carrying tag 0xFFFF), plus implementations blocked inside FidDestroy, plus a first connection whose client stops reading - at the quiescent state reached while the subset is parked every other request must have its reply; (b) groups of 2..8 requests under one tag mixed with other tags - start/finish intervals in the implementation log disjoint and in arrival order, replies in that order; a shared tag used across a Tversion in mid-session (held request, Tversion, two more requests under the tag). distinct = distinct per-object operation orders",
+		Rule:      "every schedule with at most P preemptions per scenario: (a) every non-empty proper subset of n requests parked in the implementation, every release order, one or two connections, Maxpend 0..2 (also with the blocked request carrying tag 0xFFFF), plus implementations blocked inside FidDestroy or inside AuthRead (with more requests on the same auth fid), plus a first connection whose client stops reading - at the quiescent state reached while the subset is parked every other request must have its reply; (b) groups of 2..8 requests under one tag mixed with other tags - start/finish intervals in the implementation log disjoint and in arrival order, replies in that order; a shared tag used across a Tversion in mid-session (held request, Tversion, two more requests under the tag). distinct = distinct per-object operation orders",
 		Assumptions: []string{"code between two synchronisation operations is atomic (race-free executions)", "transport modelled as an unbounded reliable byte queue", "'delayed' means: not answered in a state where nothing but the blocked requests could still run"},
 		Scenarios:   c08Scenarios, QuickS: 180, ThoroughS: 1500})
 }
